@@ -153,6 +153,13 @@ func genC08(rc *RunCtx) (*C1, bool) {
 			if sc.Fault == FCtxDeadline && sc.CancelAt == 0 {
 				sc.CancelAt = time.Microsecond
 			}
+			if sc.Fault == FCtxDeadline {
+				// The deadline is a runtime timer, not a simulator task: when it fires at the very instant at which the client
+				// wakes from a sleep of its own (the serial client's 30 ms settle delay is not a seam), which of the two
+				// goroutines runs first is Go's choice. Every instant of the scenario is a whole number of microseconds, so an
+				// odd nanosecond offset keeps the deadline alone at its instant (met once in 7 million thorough runs, seed 61).
+				sc.CancelAt += 137 * time.Nanosecond
+			}
 		}
 	case FOversize:
 		// the reply (or junk from the start) followed by junk, delivered in large reads
